@@ -4187,6 +4187,8 @@ def Gillespie_simple_contagion(G, spontaneous_transition_graph,
                     
                     
         for nbr in G.neighbors(node):
+            if nbr == node: #move past self edges
+                continue
             #print(status[node],status[nbr])
             if nbr_induced_transition_graph.has_node((status[node],status[nbr])):# and nbr_induced_transition_graph.degree((status[node],status[nbr])) >0:
                 for transition in nbr_induced_transition_graph.edges((status[node],status[nbr])):
@@ -4271,6 +4273,8 @@ def Gillespie_simple_contagion(G, spontaneous_transition_graph,
                 for nbr in G.neighbors(modified_node):
                     #remove edge from any induced lists
                     #add edge to any induced lists
+                    if nbr == modified_node: #move past self edges
+                        continue
 
                     nbr_status = status[nbr]
                     
@@ -4283,6 +4287,8 @@ def Gillespie_simple_contagion(G, spontaneous_transition_graph,
                 for pred in G.predecessors(modified_node):
                     #remove edge from any induced lists
                     #add edge to any induced lists
+                    if pred == modified_node: #move past self edges
+                        continue
 
                     pred_status = status[pred]
                     if (pred, modified_node) not in get_weight[transition]:
@@ -4295,6 +4301,8 @@ def Gillespie_simple_contagion(G, spontaneous_transition_graph,
                 for nbr in G.neighbors(modified_node):
                     #remove edge from any induced lists
                     #add edge to any induced lists
+                    if nbr == modified_node: #move past self edges
+                        continue
                     nbr_status = status[nbr]
                     
                     if (modified_node, nbr) not in get_weight[transition]:
